@@ -879,6 +879,28 @@ def run_determ(ctx, i):
             or all(isinstance(x, str) and x == res[0] for x in (res[2], res[3]))
         ctx.check(same_, "deterministic", what="image_mesh.%s.image_plane_mesh_grid_from on equal fresh inputs: A, B, A, A" % kind_, first=lambda: res[0],
                   third=lambda: res[2], fourth=lambda: res[3])
+    # the three grids of a dataset with three different over sampling schemes, read in two orders on two equal datasets (uniform
+    # and its over sampler first / last): every grid's over sampler is the one of its own scheme
+    def grids_dataset():
+        return aa.Imaging(data=aa.Array2D.no_mask(values=img_v.copy(), pixel_scales=0.3), noise_map=aa.Array2D.no_mask(values=img_v.copy() + 1.0, pixel_scales=0.3),
+                          psf=aa.Kernel2D.no_mask(values=kv.copy(), pixel_scales=0.3),
+                          over_sampling=aa.OverSamplingDataset(uniform=aa.OverSamplingUniform(sub_size=2), non_uniform=aa.OverSamplingUniform(sub_size=4),
+                                                               pixelization=aa.OverSamplingUniform(sub_size=3)))
+    tabs = []
+    for order in (("uniform", "non_uniform", "pixelization"), ("pixelization", "non_uniform", "uniform")):
+        try:
+            dsg = grids_dataset()
+            t_ = {}
+            for gname in order:
+                g_ = getattr(dsg.grids, gname)
+                t_[gname] = (int(np.max(_np(g_.over_sampler.sub_size))), value_fp(g_.over_sampler.over_sampled_grid))
+            tabs.append(t_)
+        except Exception as e:
+            tabs.append("EXC:" + type(e).__name__)
+    ctx.check(isinstance(tabs[0], dict) and tabs[0] == tabs[1] and [tabs[0][k][0] for k in ("uniform", "non_uniform", "pixelization")] == [2, 4, 3],
+              "order.matches_baseline", quantity="dataset.grids.<uniform|non_uniform|pixelization>.over_sampler", graph="dataset grids",
+              uniform_first=lambda: {k: v[0] for k, v in tabs[0].items()} if isinstance(tabs[0], dict) else tabs[0],
+              pixelization_first=lambda: {k: v[0] for k, v in tabs[1].items()} if isinstance(tabs[1], dict) else tabs[1])
     # a Delaunay mapper on a degenerate mesh (all vertices on one line: Qhull cannot start), rebuilt from equal inputs under different
     # states of the global random generator: the same outcome every time (the same refusal, or the same tables)
     mkd = aa.Mask2D.all_false(shape_native=(3, 4), pixel_scales=1.0)
